@@ -553,6 +553,17 @@ func c03Random(r *rep.Reporter, s *drv.Server, bucket string, t c03Target, idx i
 			}
 		}
 		// prefixes: every byte-prefix of live keys cut at rune boundaries, plus a few random ones
+		if isFs {
+			// prefixes no file system path can spell
+			for _, lp := range []string{strings.Repeat("p", 300) + "/", "d/" + strings.Repeat("q", 300), "d/" + strings.Repeat("q", 300) + "/x/"} {
+				if d == "" || d == "/" {
+					httpListCheck(r, s, bucket, live, lp, d, rng.Intn(2) == 0, func() interface{} {
+						return map[string]interface{}{"random_case": idx, "round": round, "target": t.name(), "prefix": "overlong segment"}
+					})
+					r.Count("listings_with_overlong_prefix", 1)
+				}
+			}
+		}
 		pset := map[string]bool{"": true, "doomed": true, fmt.Sprintf("doomed%d-%d-b/", idx, round): true, fmt.Sprintf("doomed%d-%d-c/", idx, round): true}
 		for _, k := range want {
 			for i := range k {
